@@ -313,7 +313,7 @@ class Statement(object):
                 result = self.operand.value.calculate_address_offset(statements)
             except (ValueError, ValueTypeError) as error:
                 raise TranslationError(str(error), self)
-            if self.operand.is_immediate() and not self.instruction.is_16_bit:
+            if (self.operand.is_immediate() and not self.instruction.is_16_bit) or self.instruction.mnemonic == "FCB":
                 if result.int > (0x80 if result.is_negative() else 0xFF):
                     raise TranslationError("[{}] does not fit in an 8-bit immediate value".format(
                         self.operand.operand_string), self)
@@ -322,7 +322,7 @@ class Statement(object):
 
         if self.operand.value.is_address():
             address = statements[self.operand.value.int].code_pkg.address
-            if self.operand.is_immediate() and not self.instruction.is_16_bit:
+            if (self.operand.is_immediate() and not self.instruction.is_16_bit) or self.instruction.mnemonic == "FCB":
                 if address.int > 0xFF:
                     raise TranslationError("Address of [{}] does not fit in an 8-bit immediate value".format(
                         self.operand.operand_string), self)
